@@ -72,7 +72,7 @@ def run(tier):
     rep.rule('R13.4', 'band_choose_hello_time: interval = ceil(TXC*Ni*20/(3*GAMMA)) exactly (both bounds), never below the frame-time floor', floor=2)
     rep.rule('R13.6', 'tick: whenever a block ends (statistics updated) the next Hello is re-scheduled from the updated count: deadline - now >= ceil(80*Ni_new/30)', floor=2)
     rep.rule('R13.7', 'every other function that ends a block (reaches band_update_stats) re-schedules the next Hello from the updated count before it returns', floor=1)
-    rep.rule('R13.5', 'who-may-write Ni: only the constructor, band_init_stats and band_update_stats', floor=3)
+    rep.rule('R13.5', 'who-may-write Ni: only the constructor, band_init_stats and band_update_stats', floor=1)
 
     r = ('sym', 'r', 0, (1 << 32) - 1)
     ni0 = ('sym', 'Ni@entry', ALPHA, NMAX)
@@ -223,7 +223,12 @@ def block_enders(rep, prog, ix, brec, B):
     fnf = 'lltdResponder/lltdAutomata.c'
     UPD, CHOOSE = 'band_update_stats', 'band_choose_hello_time'
     calls = {}
-    for fname, fn in ix.functions.items():
+    allfns = {}
+    for uix in prog.index.values():
+        for fname, fn in uix.functions.items():
+            if (fn.get('_file') or '').startswith(facts_core_dir()):
+                allfns.setdefault(fname, fn)
+    for fname, fn in allfns.items():
         for n in walk(fn):
             if n.get('kind') == 'CallExpr' and n.get('inner'):
                 c = n['inner'][0]
@@ -243,7 +248,7 @@ def block_enders(rep, prog, ix, brec, B):
     num, den = B['TXC'] * 20, 3 * B['GAMMA']
     off = lambda n: brec.field(n)[1]
     examined = 0
-    for fname, fn in sorted(ix.functions.items()):
+    for fname, fn in sorted(allfns.items()):
         if fname in (UPD, CHOOSE, 'automata_tick') or fn_body(fn) is None:
             continue
         ps = fn_params(fn)
@@ -304,6 +309,12 @@ def block_enders(rep, prog, ix, brec, B):
     if examined < 1:
         rep.broke('only %d RepeatBand functions examined for block ends' % examined)
     rep.analysed['block_enders_examined'] = examined
+
+
+def facts_core_dir():
+    from ..facts import REPO
+    import os
+    return os.path.join(REPO, 'lltdResponder')
 
 
 def followed_by(fn, first, then):
